@@ -57,6 +57,9 @@ CLAIMS['C10'] = ('Bounded symbolic model checking of the real Zernike classes: f
     'the radial polynomial equals the three-term-recurrence definition for ALL r (polynomial identity, n <= 12/14), normalisation N^2 (1+[m=0]) = 2n+2 over symbolic integers, poly() linear in symbolic coefficient vectors, '
     'ZernikeFit._objective zero at the generating coefficients / affine, fits do not disturb each other.',
     'that scipy least_squares returns the minimiser is assumed (stubbed); orthogonality of the radial polynomials is the textbook fact the normalisation check relies on; azimuthal sign convention sin(m phi), m<0, taken from the library')
+CLAIMS['C18'] = ('Bounded symbolic model checking of MaterialFile: each of the nine dispersion formulas with symbolic coefficients (parsed through the real _parse_file from symbolic tokens) and symbolic wavelength equals the refractiveindex.info formula (squared where it is defined on n^2), '
+    'malformed coefficient counts raise, tabulated n/k/nk = clamped linear interpolation of symbolic tables incl. column mapping, scalar = array, abbe(); the name-ranking kernel equals the textbook Levenshtein distance over symbolic characters (|s|<=3); model glass reproduces n_d within 0.02 over the whole glass-map box.',
+    'NOT decided: the enumeration of the 2593 catalogue rows and the pandas substring filter/ranking around the kernel (finite concrete data, not a solver question); exponent coefficients of formulas 3/4/5 enumerated from {-2,0,1,2,4}; 1-3 terms; 2-3 table rows')
 NOT_YET = 'check not built yet in this round (work in progress; see DESIGN.md section 6 for the plan)'
 
 props = [json.loads(l) for l in open(os.path.join(ROOT, 'properties.jsonl'))]
